@@ -3,6 +3,7 @@ mod abs;
 mod conn;
 mod frames;
 mod net;
+mod wire;
 
 use std::{
     collections::HashMap,
@@ -246,6 +247,7 @@ fn main() {
         "conn-trace" => cmd_conn_trace(&a),
         "conn-sweep" => cmd_conn_sweep(&a),
         "net-replay" => cmd_net_replay(&a),
+        "wire-replay" => wire::cmd_wire_replay(&a),
         "net-trace" => cmd_net_trace(&a),
         _ => {
             eprintln!("usage: lfsverif <command> ...");
